@@ -166,7 +166,13 @@ func init() {
 			externals[n] = noEffect("no effect on program state; never panics; result unconstrained")
 		}
 	}
-	pure("fmt.Println", "fmt.Printf", "fmt.Print", "log.Printf", "log.Print", "log.Println", "fmt.Errorf", "time.Now", "time.Since")
+	pure("fmt.Println", "fmt.Printf", "fmt.Print", "log.Printf", "log.Print", "log.Println", "time.Now", "time.Since")
+	externals["fmt.Errorf"] = &extEntry{doc: "returns a non-nil error; no effect on program state; never panics",
+		fn: func(fr *Frame, ins ssa.Instruction, c *ssa.CallCommon, args []Val, st *State) []Val {
+			e := fr.fx.s.freshConst("err", "Iface")
+			fr.fx.s.assume(st.guard, not(eq(e, "niliface")))
+			return []Val{{t: e}}
+		}}
 
 	externals["fmt.Sprintf"] = &extEntry{doc: "for the verbs %s (string), %d, %02d (integers): the concatenation of the obvious pieces; otherwise an unconstrained string; never panics",
 		fn: func(fr *Frame, ins ssa.Instruction, c *ssa.CallCommon, args []Val, st *State) []Val {
@@ -314,9 +320,10 @@ func init() {
 	externals["google.golang.org/protobuf/proto.HasExtension"] = &extEntry{doc: "HasExtension(m, E) is a function of (m, E); false for a nil message",
 		fn: func(fr *Frame, ins ssa.Instruction, c *ssa.CallCommon, args []Val, st *State) []Val {
 			fx := fr.fx
-			fx.ufun("has_ext", []string{"Ref", "Ref"}, "Bool")
+			fx.ufun("has_ext", []string{"Ref", "Int"}, "Bool")
 			m := fr.msgRef(c.Args[0])
-			return []Val{{t: fmt.Sprintf("(and (not (= %s nilref)) (has_ext %s %s))", m, m, args[1].t)}}
+			_, id := fx.extDescriptor(c.Args[1])
+			return []Val{{t: fmt.Sprintf("(and (not (= %s nilref)) (has_ext %s %s))", m, m, id)}}
 		}}
 	externals["google.golang.org/protobuf/proto.GetExtension"] = &extEntry{doc: "GetExtension(m, E_X) has dynamic type *X (the extension's message type); non-nil iff HasExtension(m, E_X); a function of (m, E)",
 		fn: extGetExtension}
@@ -485,23 +492,32 @@ func extFindStringSubmatch(fr *Frame, ins ssa.Instruction, c *ssa.CallCommon, ar
 
 func extGetExtension(fr *Frame, ins ssa.Instruction, c *ssa.CallCommon, args []Val, st *State) []Val {
 	fx := fr.fx
-	// which extension: args[1] is a load of a package-level *ExtensionInfo variable
-	var extType types.Type
-	if ld, ok := c.Args[1].(*ssa.UnOp); ok {
-		if g, ok := ld.X.(*ssa.Global); ok {
-			extType = fx.eng.extensionType(g)
-		}
-	}
-	if extType == nil {
-		unsupported("GetExtension with unknown extension descriptor")
-	}
-	fx.ufun("has_ext", []string{"Ref", "Ref"}, "Bool")
-	fx.ufun("get_ext", []string{"Ref", "Ref"}, "Ref")
+	extType, id := fx.extDescriptor(c.Args[1])
+	fx.ufun("has_ext", []string{"Ref", "Int"}, "Bool")
+	fx.ufun("get_ext", []string{"Ref", "Int"}, "Ref")
 	m := fr.msgRef(c.Args[0])
-	p := fx.s.define("ext", "Ref", fmt.Sprintf("(get_ext %s %s)", m, args[1].t))
-	has := fmt.Sprintf("(and (not (= %s nilref)) (has_ext %s %s))", m, m, args[1].t)
+	p := fx.s.define("ext", "Ref", fmt.Sprintf("(get_ext %s %s)", m, id))
+	has := fmt.Sprintf("(and (not (= %s nilref)) (has_ext %s %s))", m, m, id)
 	fx.s.assume(st.guard, fmt.Sprintf("(and (<= 0 (obj %s)) (<= (obj %s) %s) (= (not (= %s nilref)) %s) (=> (= (obj %s) 0) (= %s nilref)))", p, p, st.alloc, p, has, p, p))
 	return []Val{{t: fx.box(Val{t: p}, extType)}}
+}
+
+// extDescriptor: which extension a descriptor argument denotes (a package-level E_<Name> variable)
+func (fx *FnCtx) extDescriptor(v ssa.Value) (types.Type, Term) {
+	if mi, ok := v.(*ssa.MakeInterface); ok {
+		v = mi.X
+	}
+	if ld, ok := v.(*ssa.UnOp); ok {
+		if g, ok := ld.X.(*ssa.Global); ok {
+			if t := fx.eng.extensionType(g); t != nil {
+				id := "extid_" + sanitize(g.Name())
+				fx.s.global(id, fmt.Sprintf("(declare-fun %s () Int)", id))
+				return t, id
+			}
+		}
+	}
+	unsupported("protobuf extension call with an unknown extension descriptor")
+	return nil, ""
 }
 
 // msgRef: the message pointer behind a proto.Message interface argument built at the call site
